@@ -379,3 +379,200 @@ Theorem C05_portable_c_compress_xof : forall cv block block_len counter flags ou
   Portable.compress_xof cv block block_len counter flags.
 Proof. exact c_compress_xof_eq. Qed.
 Print Assumptions C05_portable_c_compress_xof.
+
+
+(* ------------------------------------------------------------------ *)
+(* The vector round and the register transposes as TRANSLATED from the sources.  gen/GenRounds.v is
+   regenerated on every run (tools/gen_coq.py gen_kernel_rounds) from the text of
+     fn round + add, xor, rot16, rot12, rot8, rot7, fn transpose_vecs (+ interleave128)
+        of src/rust_sse2.rs, src/rust_sse41.rs, src/rust_avx2.rs,
+     round_fn + addv, xorv, rot16, rot12, rot8, rot7, transpose_vecs
+        of c/blake3_sse2.c, c/blake3_sse41.c, c/blake3_avx2.c,
+     round_fn4/8/16 + add_*, xor_*, rot*_128/256/512, transpose_vecs_128/256/512 (+ unpack_lo_128, unpack_hi_128)
+        of c/blake3_avx512.c,
+   statement by statement (112 statements per round, in source order, every index from the text), as terms over
+   the intrinsic semantics of Model/Intrinsics.v.  Each translated round equals `vround`, each translated transpose
+   equals `transpose_vecs_128/256/512` -- the hand-written models that C05_vround_lane, C05_transpose_*,
+   C05_hash* above are about.  Registers, message vectors and the round number are variables.
+   The Rust files (rot = srli/slli/or) and blake3_avx512.c (rot = ror_epi32): for all lists.
+   blake3_sse2.c (rot16 = shufflelo/shufflehi 0xB1, others srli/slli/XOR), blake3_sse41.c and blake3_avx2.c
+   (rot16, rot8 = shuffle_epi8 with a constant): for registers of 32-bit lanes, C05_reg.
+   Also translated (further down): transpose_msg_vecs* and one iteration of the `for block` loop of hashN. *)
+From V Require Import gen.GenRounds Proofs.RoundsP.
+
+Definition C05_reg (n : nat) (x : vec) : Prop := length x = n /\ Forall (fun w => w < 2 ^ 32) x.
+
+Theorem C05_round_rs_sse2_round : forall v m r, rs_sse2_round v m r = vround v m r.
+Proof. exact rs_sse2_round_ok. Qed.
+Print Assumptions C05_round_rs_sse2_round.
+Theorem C05_round_rs_sse41_round : forall v m r, rs_sse41_round v m r = vround v m r.
+Proof. exact rs_sse41_round_ok. Qed.
+Print Assumptions C05_round_rs_sse41_round.
+Theorem C05_round_rs_avx2_round : forall v m r, rs_avx2_round v m r = vround v m r.
+Proof. exact rs_avx2_round_ok. Qed.
+Print Assumptions C05_round_rs_avx2_round.
+Theorem C05_round_c_avx512_round_fn4 : forall v m r, c_avx512_round_fn4 v m r = vround v m r.
+Proof. exact c_avx512_round_fn4_ok. Qed.
+Print Assumptions C05_round_c_avx512_round_fn4.
+Theorem C05_round_c_avx512_round_fn8 : forall v m r, c_avx512_round_fn8 v m r = vround v m r.
+Proof. exact c_avx512_round_fn8_ok. Qed.
+Print Assumptions C05_round_c_avx512_round_fn8.
+Theorem C05_round_c_avx512_round_fn16 : forall v m r, c_avx512_round_fn16 v m r = vround v m r.
+Proof. exact c_avx512_round_fn16_ok. Qed.
+Print Assumptions C05_round_c_avx512_round_fn16.
+
+Theorem C05_round_c_sse2_round_fn : forall v m r, Forall (C05_reg 4) v -> Forall (C05_reg 4) m ->
+  c_sse2_round_fn v m r = vround v m r.
+Proof. exact c_sse2_round_fn_ok. Qed.
+Print Assumptions C05_round_c_sse2_round_fn.
+(* its rotations: byte / 16-bit shuffles and shift pairs are the lane-wise rotr *)
+Theorem C05_rots_c_sse2 : forall x, C05_reg 4 x ->
+  c_sse2_rot16 x = vrot x 16 /\ c_sse2_rot12 x = vrot x 12 /\ c_sse2_rot8 x = vrot x 8 /\ c_sse2_rot7 x = vrot x 7.
+Proof. exact c_sse2_rots_ok. Qed.
+Print Assumptions C05_rots_c_sse2.
+Theorem C05_round_c_sse41_round_fn : forall v m r, Forall (C05_reg 4) v -> Forall (C05_reg 4) m ->
+  c_sse41_round_fn v m r = vround v m r.
+Proof. exact c_sse41_round_fn_ok. Qed.
+Print Assumptions C05_round_c_sse41_round_fn.
+(* its rotations: byte / 16-bit shuffles and shift pairs are the lane-wise rotr *)
+Theorem C05_rots_c_sse41 : forall x, C05_reg 4 x ->
+  c_sse41_rot16 x = vrot x 16 /\ c_sse41_rot12 x = vrot x 12 /\ c_sse41_rot8 x = vrot x 8 /\ c_sse41_rot7 x = vrot x 7.
+Proof. exact c_sse41_rots_ok. Qed.
+Print Assumptions C05_rots_c_sse41.
+Theorem C05_round_c_avx2_round_fn : forall v m r, Forall (C05_reg 8) v -> Forall (C05_reg 8) m ->
+  c_avx2_round_fn v m r = vround v m r.
+Proof. exact c_avx2_round_fn_ok. Qed.
+Print Assumptions C05_round_c_avx2_round_fn.
+(* its rotations: byte / 16-bit shuffles and shift pairs are the lane-wise rotr *)
+Theorem C05_rots_c_avx2 : forall x, C05_reg 8 x ->
+  c_avx2_rot16 x = vrot x 16 /\ c_avx2_rot12 x = vrot x 12 /\ c_avx2_rot8 x = vrot x 8 /\ c_avx2_rot7 x = vrot x 7.
+Proof. exact c_avx2_rots_ok. Qed.
+Print Assumptions C05_rots_c_avx2.
+
+(* the model round maps 16 registers to 16 registers, so the equalities above chain over the seven rounds *)
+Theorem C05_vround_reg : forall n v m r, length v = 16%nat -> length m = 16%nat -> (r < 7)%nat ->
+  Forall (C05_reg n) v -> Forall (C05_reg n) m -> Forall (C05_reg n) (vround v m r).
+Proof. exact vround_reg. Qed.
+Print Assumptions C05_vround_reg.
+
+(* the transposes: the translated unpack / permute sequences are the model sequences *)
+Theorem C05_rs_sse2_transpose_vecs : forall vecs, rs_sse2_transpose_vecs vecs = transpose_vecs_128 0 vecs.
+Proof. exact rs_sse2_transpose_vecs_ok. Qed.
+Print Assumptions C05_rs_sse2_transpose_vecs.
+Theorem C05_rs_sse41_transpose_vecs : forall vecs, rs_sse41_transpose_vecs vecs = transpose_vecs_128 0 vecs.
+Proof. exact rs_sse41_transpose_vecs_ok. Qed.
+Print Assumptions C05_rs_sse41_transpose_vecs.
+Theorem C05_rs_avx2_transpose_vecs : forall vecs, rs_avx2_transpose_vecs vecs = transpose_vecs_256 0 vecs.
+Proof. exact rs_avx2_transpose_vecs_ok. Qed.
+Print Assumptions C05_rs_avx2_transpose_vecs.
+Theorem C05_c_sse2_transpose_vecs : forall vecs, c_sse2_transpose_vecs vecs = transpose_vecs_128 0 vecs.
+Proof. exact c_sse2_transpose_vecs_ok. Qed.
+Print Assumptions C05_c_sse2_transpose_vecs.
+Theorem C05_c_sse41_transpose_vecs : forall vecs, c_sse41_transpose_vecs vecs = transpose_vecs_128 0 vecs.
+Proof. exact c_sse41_transpose_vecs_ok. Qed.
+Print Assumptions C05_c_sse41_transpose_vecs.
+Theorem C05_c_avx2_transpose_vecs : forall vecs, c_avx2_transpose_vecs vecs = transpose_vecs_256 0 vecs.
+Proof. exact c_avx2_transpose_vecs_ok. Qed.
+Print Assumptions C05_c_avx2_transpose_vecs.
+Theorem C05_c_avx512_transpose_vecs_128 : forall vecs, c_avx512_transpose_vecs_128 vecs = transpose_vecs_128 0 vecs.
+Proof. exact c_avx512_transpose_vecs_128_ok. Qed.
+Print Assumptions C05_c_avx512_transpose_vecs_128.
+Theorem C05_c_avx512_transpose_vecs_256 : forall vecs, c_avx512_transpose_vecs_256 vecs = transpose_vecs_256 0 vecs.
+Proof. exact c_avx512_transpose_vecs_256_ok. Qed.
+Print Assumptions C05_c_avx512_transpose_vecs_256.
+Theorem C05_c_avx512_transpose_vecs_512 : forall vecs, c_avx512_transpose_vecs_512 vecs = transpose_vecs_512 0 vecs.
+Proof. exact c_avx512_transpose_vecs_512_ok. Qed.
+Print Assumptions C05_c_avx512_transpose_vecs_512.
+
+(* transpose_msg_vecs*: the 16 unaligned loads (a pointer `&inputs[i][off]` / `inputs[i].add(off)` is the pair
+   (i-th input, offset), _mm*_loadu_si* reads 16/32/64 bytes little-endian) and the transposes of the n x n squares,
+   translated, equal the model transpose_msg_vecs4/8/16 (C05_transpose_msg above: lane i holds block i's words) *)
+Theorem C05_rs_sse2_transpose_msg_vecs : forall inputs off, rs_sse2_transpose_msg_vecs inputs off = transpose_msg_vecs4 inputs off.
+Proof. exact rs_sse2_transpose_msg_vecs_ok. Qed.
+Print Assumptions C05_rs_sse2_transpose_msg_vecs.
+Theorem C05_rs_sse41_transpose_msg_vecs : forall inputs off, rs_sse41_transpose_msg_vecs inputs off = transpose_msg_vecs4 inputs off.
+Proof. exact rs_sse41_transpose_msg_vecs_ok. Qed.
+Print Assumptions C05_rs_sse41_transpose_msg_vecs.
+Theorem C05_rs_avx2_transpose_msg_vecs : forall inputs off, rs_avx2_transpose_msg_vecs inputs off = transpose_msg_vecs8 inputs off.
+Proof. exact rs_avx2_transpose_msg_vecs_ok. Qed.
+Print Assumptions C05_rs_avx2_transpose_msg_vecs.
+Theorem C05_c_sse2_transpose_msg_vecs : forall inputs off, c_sse2_transpose_msg_vecs inputs off = transpose_msg_vecs4 inputs off.
+Proof. exact c_sse2_transpose_msg_vecs_ok. Qed.
+Print Assumptions C05_c_sse2_transpose_msg_vecs.
+Theorem C05_c_sse41_transpose_msg_vecs : forall inputs off, c_sse41_transpose_msg_vecs inputs off = transpose_msg_vecs4 inputs off.
+Proof. exact c_sse41_transpose_msg_vecs_ok. Qed.
+Print Assumptions C05_c_sse41_transpose_msg_vecs.
+Theorem C05_c_avx2_transpose_msg_vecs : forall inputs off, c_avx2_transpose_msg_vecs inputs off = transpose_msg_vecs8 inputs off.
+Proof. exact c_avx2_transpose_msg_vecs_ok. Qed.
+Print Assumptions C05_c_avx2_transpose_msg_vecs.
+Theorem C05_c_avx512_transpose_msg_vecs4 : forall inputs off, c_avx512_transpose_msg_vecs4 inputs off = transpose_msg_vecs4 inputs off.
+Proof. exact c_avx512_transpose_msg_vecs4_ok. Qed.
+Print Assumptions C05_c_avx512_transpose_msg_vecs4.
+Theorem C05_c_avx512_transpose_msg_vecs8 : forall inputs off, c_avx512_transpose_msg_vecs8 inputs off = transpose_msg_vecs8 inputs off.
+Proof. exact c_avx512_transpose_msg_vecs8_ok. Qed.
+Print Assumptions C05_c_avx512_transpose_msg_vecs8.
+Theorem C05_c_avx512_transpose_msg_vecs16 : forall inputs off, c_avx512_transpose_msg_vecs16 inputs off = transpose_msg_vecs16 inputs off.
+Proof. exact c_avx512_transpose_msg_vecs16_ok. Qed.
+Print Assumptions C05_c_avx512_transpose_msg_vecs16.
+
+(* one iteration of the `for block` loop of hash4 / hash8 / hash16 (set1 of the block length and flags, the message
+   vectors of block number `block`, the 16-vector state h_vecs ++ IV[0..3] ++ counters ++ len ++ flags, seven calls of
+   the round, the eight feed-forward xors), translated from the loop body, equals the model `vcompress` that
+   hashN_loop iterates.  The `if block + 1 == blocks { block_flags |= flags_end }` prologue and the
+   `block_flags = flags` epilogue are recognised by the translator and remain the hand-written hashN_loop. *)
+Theorem C05_block_rs_sse2_hash4 : forall h clo chi bf inputs block, length h = 8%nat -> bf < 2 ^ 32 ->
+  rs_sse2_hash4_block h clo chi bf inputs block =
+  vcompress 4 h (transpose_msg_vecs4 inputs (block * 64)) clo chi rs_BLOCK_LEN bf.
+Proof. exact rs_sse2_hash4_block_ok. Qed.
+Print Assumptions C05_block_rs_sse2_hash4.
+Theorem C05_block_rs_sse41_hash4 : forall h clo chi bf inputs block, length h = 8%nat -> bf < 2 ^ 32 ->
+  rs_sse41_hash4_block h clo chi bf inputs block =
+  vcompress 4 h (transpose_msg_vecs4 inputs (block * 64)) clo chi rs_BLOCK_LEN bf.
+Proof. exact rs_sse41_hash4_block_ok. Qed.
+Print Assumptions C05_block_rs_sse41_hash4.
+Theorem C05_block_rs_avx2_hash8 : forall h clo chi bf inputs block, length h = 8%nat -> bf < 2 ^ 32 ->
+  rs_avx2_hash8_block h clo chi bf inputs block =
+  vcompress 8 h (transpose_msg_vecs8 inputs (block * 64)) clo chi rs_BLOCK_LEN bf.
+Proof. exact rs_avx2_hash8_block_ok. Qed.
+Print Assumptions C05_block_rs_avx2_hash8.
+Theorem C05_block_c_avx512_blake3_hash4_avx512 : forall h clo chi bf inputs block, length h = 8%nat -> bf < 2 ^ 32 ->
+  c_avx512_blake3_hash4_avx512_block h clo chi bf inputs block =
+  vcompress 4 h (transpose_msg_vecs4 inputs (block * 64)) clo chi rs_BLOCK_LEN bf.
+Proof. exact c_avx512_blake3_hash4_avx512_block_ok. Qed.
+Print Assumptions C05_block_c_avx512_blake3_hash4_avx512.
+Theorem C05_block_c_avx512_blake3_hash8_avx512 : forall h clo chi bf inputs block, length h = 8%nat -> bf < 2 ^ 32 ->
+  c_avx512_blake3_hash8_avx512_block h clo chi bf inputs block =
+  vcompress 8 h (transpose_msg_vecs8 inputs (block * 64)) clo chi rs_BLOCK_LEN bf.
+Proof. exact c_avx512_blake3_hash8_avx512_block_ok. Qed.
+Print Assumptions C05_block_c_avx512_blake3_hash8_avx512.
+Theorem C05_block_c_avx512_blake3_hash16_avx512 : forall h clo chi bf inputs block, length h = 8%nat -> bf < 2 ^ 32 ->
+  c_avx512_blake3_hash16_avx512_block h clo chi bf inputs block =
+  vcompress 16 h (transpose_msg_vecs16 inputs (block * 64)) clo chi rs_BLOCK_LEN bf.
+Proof. exact c_avx512_blake3_hash16_avx512_block_ok. Qed.
+Print Assumptions C05_block_c_avx512_blake3_hash16_avx512.
+(* blake3_sse2.c, blake3_sse41.c, blake3_avx2.c: for registers of 32-bit lanes and inputs that are byte strings
+   holding the block *)
+Theorem C05_block_c_sse2_blake3_hash4_sse2 : forall h clo chi bf inputs block,
+  length h = 8%nat -> Forall (C05_reg 4) h -> C05_reg 4 clo -> C05_reg 4 chi -> bf < 2 ^ 32 ->
+  (forall j, (j < 4)%nat -> (block * 64 + 64 <= length (inp inputs j))%nat) ->
+  (forall j, (j < 4)%nat -> Forall (fun b => b < 256) (inp inputs j)) ->
+  c_sse2_blake3_hash4_sse2_block h clo chi bf inputs block =
+  vcompress 4 h (transpose_msg_vecs4 inputs (block * 64)) clo chi rs_BLOCK_LEN bf.
+Proof. exact c_sse2_blake3_hash4_sse2_block_ok. Qed.
+Print Assumptions C05_block_c_sse2_blake3_hash4_sse2.
+Theorem C05_block_c_sse41_blake3_hash4_sse41 : forall h clo chi bf inputs block,
+  length h = 8%nat -> Forall (C05_reg 4) h -> C05_reg 4 clo -> C05_reg 4 chi -> bf < 2 ^ 32 ->
+  (forall j, (j < 4)%nat -> (block * 64 + 64 <= length (inp inputs j))%nat) ->
+  (forall j, (j < 4)%nat -> Forall (fun b => b < 256) (inp inputs j)) ->
+  c_sse41_blake3_hash4_sse41_block h clo chi bf inputs block =
+  vcompress 4 h (transpose_msg_vecs4 inputs (block * 64)) clo chi rs_BLOCK_LEN bf.
+Proof. exact c_sse41_blake3_hash4_sse41_block_ok. Qed.
+Print Assumptions C05_block_c_sse41_blake3_hash4_sse41.
+Theorem C05_block_c_avx2_blake3_hash8_avx2 : forall h clo chi bf inputs block,
+  length h = 8%nat -> Forall (C05_reg 8) h -> C05_reg 8 clo -> C05_reg 8 chi -> bf < 2 ^ 32 ->
+  (forall j, (j < 8)%nat -> (block * 64 + 64 <= length (inp inputs j))%nat) ->
+  (forall j, (j < 8)%nat -> Forall (fun b => b < 256) (inp inputs j)) ->
+  c_avx2_blake3_hash8_avx2_block h clo chi bf inputs block =
+  vcompress 8 h (transpose_msg_vecs8 inputs (block * 64)) clo chi rs_BLOCK_LEN bf.
+Proof. exact c_avx2_blake3_hash8_avx2_block_ok. Qed.
+Print Assumptions C05_block_c_avx2_blake3_hash8_avx2.
